@@ -1,0 +1,8 @@
+//go:build verif
+
+package memidm
+
+import "github.com/avfs/avfs"
+
+// verifRWMutex is the instrumented RWMutex of the verification harness.
+type verifRWMutex = avfs.VerifRWMutex
